@@ -12,10 +12,10 @@ SPEC = dict(
     jobs=[
         job('map-exh', 'h_map', 'map-exh', cases=-1, scale={Q: 7, T: 8}, procs=16, probes=[]),
         job('multi-exh', 'h_map', 'multi-exh', cases=-1, scale={Q: 6, T: 8}, procs=16, probes=['MultiMap.count/value', 'MultiMap.copy-construct/shallow']),
-        job('map-rand', 'h_map', 'map-rand', cases={Q: 8000, T: 120000}, procs=16),
-        job('multi-rand', 'h_map', 'multi-rand', cases={Q: 8000, T: 120000}, procs=16),
-        job('map-depth', 'h_map', 'map-depth', cases={Q: 32, T: 320}, procs=16),
-        job('multi-depth', 'h_map', 'multi-depth', cases={Q: 32, T: 320}, procs=16),
+        job('map-rand', 'h_map', 'map-rand', cases={Q: 24000, T: 120000}, procs=16),
+        job('multi-rand', 'h_map', 'multi-rand', cases={Q: 24000, T: 120000}, procs=16),
+        job('map-depth', 'h_map', 'map-depth', cases={Q: 96, T: 320}, procs=16),
+        job('multi-depth', 'h_map', 'multi-depth', cases={Q: 96, T: 320}, procs=16),
     ],
     floors={Q: dict(ops=100000, lookups=1000000, structure_walks=100000, two_child_removals=1000, **{'set:hint_classes': 7}),
             T: dict(ops=1000000, lookups=10000000, structure_walks=1000000, two_child_removals=10000, **{'set:hint_classes': 7})},
